@@ -28,11 +28,16 @@ Inductive fault :=
 | FBreakOutside      (* break / continue outside of a loop *)
 | FMissingReturn     (* value-returning function without a final return *)
 | FPrivate           (* use of a non-public declaration or field of the imported module *)
-| FArticle.          (* article does not agree with the gender of the type *)
+| FArticle           (* article does not agree with the gender of the type *)
+| FConstElem         (* assignment to an element / a field of a Konstante *)
+| FWrongElemValue    (* element / field assigned a value of a wrong type, index of a wrong type *)
+| FWrongIter         (* for-each over a non-list, loop variable of another type than the elements, repeat count / do-while condition of a wrong type *)
+| FWrongListElem.    (* list literal with elements of different types or with list elements *)
 
 Definition all_faults : list fault :=
   [FUndeclared; FOutOfScope; FRedeclare; FWrongOperand; FWrongArg; FWrongInit; FWrongAssign; FWrongCond;
-   FWrongBound; FWrongReturn; FConstAssign; FConstRef; FBreakOutside; FMissingReturn; FPrivate; FArticle].
+   FWrongBound; FWrongReturn; FConstAssign; FConstRef; FBreakOutside; FMissingReturn; FPrivate; FArticle;
+   FConstElem; FWrongElemValue; FWrongIter; FWrongListElem].
 
 Record gen := {
   g_expr : fenv -> env -> expr -> list expr;                       (* replacements of a sub-expression *)
@@ -63,6 +68,9 @@ Fixpoint rwE (F : fenv) (G : env) (e : expr) : list expr :=
   | ECast e1 t => map (fun x => ECast x t) (rwE F G e1)
   | EField f e1 => map (EField f) (rwE F G e1)
   | ECall f a => map (ECall f) (rwA F G a)
+  | ESlice l i j => map (fun x => ESlice x i j) (rwE F G l) ++ map (fun x => ESlice l x j) (rwE F G i) ++
+                    map (fun x => ESlice l i x) (rwE F G j)
+  | EList e a => map (fun x => EList x a) (rwE F G e) ++ map (EList e) (rwA F G a)
   | _ => []
   end
 with rwA (F : fenv) (G : env) (a : args) : list args :=
@@ -76,6 +84,11 @@ Definition rw_slots (F : fenv) (G : env) (s : stmt) : list stmt :=
   match s with
   | SVar a t x e => map (SVar a t x) (rwE F G e)
   | SAssign x e => map (SAssign x) (rwE F G e)
+  | SAssignIdx x i e => map (fun i' => SAssignIdx x i' e) (rwE F G i) ++ map (SAssignIdx x i) (rwE F G e)
+  | SAssignField f x e => map (SAssignField f x) (rwE F G e)
+  | SForEach a t x e b => map (fun e' => SForEach a t x e' b) (rwE F G e)
+  | SRepeat b n => map (SRepeat b) (rwE F G n)
+  | SDoWhile b c => map (SDoWhile b) (rwE F G c)
   | SIf c th el => map (fun c' => SIf c' th el) (rwE F G c)
   | SWhile c b => map (fun c' => SWhile c' b) (rwE F G c)
   | SFor a t x from to step b =>
@@ -99,6 +112,9 @@ Fixpoint rwS (F : fenv) (G : env) (d : nat) (r : retctx) (s : stmt) : list stmt 
   | SWhile c b => map (SWhile c) (rwB F (push G) (S d) r b)
   | SFor a t x from to step b => map (SFor a t x from to step) (rwB F (bind (push G) x (BVar t)) (S d) r b)
   | SBlock b => map SBlock (rwB F (push G) d r b)
+  | SForEach a t x e b => map (SForEach a t x e) (rwB F (bind (push G) x (BVar t)) (S d) r b)
+  | SRepeat b n => map (fun b' => SRepeat b' n) (rwB F (push G) (S d) r b)
+  | SDoWhile b c => map (fun b' => SDoWhile b' c) (rwB F (push G) (S d) r b)
   | _ => []
   end
 with rwB (F : fenv) (G : env) (d : nat) (r : retctx) (b : block) : list block :=
@@ -175,6 +191,8 @@ Fixpoint nm_expr (e : expr) : list name :=
   | ECast e t => nm_expr e ++ nm_ty t
   | EField f e => f :: nm_expr e
   | ECall f a => f :: nm_args a
+  | ESlice l i j => nm_expr l ++ nm_expr i ++ nm_expr j
+  | EList e a => nm_expr e ++ nm_args a
   end
 with nm_args (a : args) : list name :=
   match a with ANil => [] | ACons e a' => nm_expr e ++ nm_args a' end.
@@ -186,6 +204,11 @@ Fixpoint nm_stmt (s : stmt) : list name :=
   | SVar _ t x e => x :: nm_ty t ++ nm_expr e
   | SConst _ x _ => [x]
   | SAssign x e => x :: nm_expr e
+  | SAssignIdx x i e => x :: nm_expr i ++ nm_expr e
+  | SAssignField f x e => f :: x :: nm_expr e
+  | SForEach _ t x e b => x :: nm_ty t ++ nm_expr e ++ nm_block b
+  | SRepeat b n => nm_block b ++ nm_expr n
+  | SDoWhile b c => nm_block b ++ nm_expr c
   | SIf c th el => nm_expr c ++ nm_block th ++ nm_block el
   | SWhile c b => nm_expr c ++ nm_block b
   | SFor _ t x f to st b => x :: nm_ty t ++ nm_expr f ++ nm_expr to ++ nm_opt st ++ nm_block b
@@ -220,8 +243,8 @@ Fixpoint dn_stmt (s : stmt) : list name :=
   match s with
   | SVar _ _ x _ | SConst _ x _ => [x]
   | SIf _ th el => dn_block th ++ dn_block el
-  | SWhile _ b | SBlock b => dn_block b
-  | SFor _ _ x _ _ _ b => x :: dn_block b
+  | SWhile _ b | SBlock b | SRepeat b _ | SDoWhile b _ => dn_block b
+  | SFor _ _ x _ _ _ b | SForEach _ _ x _ b => x :: dn_block b
   | _ => []
   end
 with dn_block (b : block) : list name :=
@@ -370,12 +393,18 @@ Definition gen_of (fc : fault) (I : info) : gen :=
                                | _ => [] end;
          g_stmt := fun _ _ _ _ s => match s with
                                     | SAssign _ e => [SAssign (i_fresh I) e]
+                                    | SAssignIdx _ i e => [SAssignIdx (i_fresh I) i e]
+                                    | SAssignField f _ e => [SAssignField f (i_fresh I) e; SAssignField (i_fresh I) (i_fresh I) e]
                                     | SCall _ a => [SCall (i_fresh I) a]
                                     | _ => [] end;
          g_ins := g_ins no_gen; g_fun := g_fun no_gen; g_top := g_top no_gen; g_imp := g_imp no_gen |}
   | FOutOfScope =>
       {| g_expr := fun _ _ e => match e with EVar _ => map EVar (i_declared I ++ i_nonvars I) | _ => [] end;
-         g_stmt := fun _ _ _ _ s => match s with SAssign _ e => map (fun y => SAssign y e) (i_declared I ++ i_nonvars I) | _ => [] end;
+         g_stmt := fun _ _ _ _ s => match s with
+                                    | SAssign _ e => map (fun y => SAssign y e) (i_declared I ++ i_nonvars I)
+                                    | SAssignIdx _ i e => map (fun y => SAssignIdx y i e) (i_declared I ++ i_nonvars I)
+                                    | SAssignField f _ e => map (fun y => SAssignField f y e) (i_declared I ++ i_nonvars I)
+                                    | _ => [] end;
          g_ins := g_ins no_gen; g_fun := g_fun no_gen; g_top := g_top no_gen; g_imp := g_imp no_gen |}
   | FRedeclare =>
       {| g_expr := g_expr no_gen; g_stmt := g_stmt no_gen;
@@ -394,6 +423,7 @@ Definition gen_of (fc : fault) (I : info) : gen :=
                      | EBin o l r => map (fun w => EBin o w r) P ++ map (fun w => EBin o l w) P
                      | ECast _ t => map (fun w => ECast w t) P
                      | EField f _ => map (EField f) P
+                     | ESlice l i j => map (fun w => ESlice w i j) P ++ map (fun w => ESlice l w j) P ++ map (fun w => ESlice l i w) P
                      | _ => [] end;
          g_stmt := g_stmt no_gen; g_ins := g_ins no_gen; g_fun := g_fun no_gen; g_top := g_top no_gen; g_imp := g_imp no_gen |}
   | FWrongArg =>
@@ -474,6 +504,8 @@ Definition gen_of (fc : fault) (I : info) : gen :=
                                | _ => [] end;
          g_stmt := fun _ _ _ _ s => match s with
                                     | SAssign _ e => map (fun y => SAssign y e) (i_priv_vars I)
+                                    | SAssignIdx _ i e => map (fun y => SAssignIdx y i e) (i_priv_vars I)
+                                    | SAssignField _ x e => map (fun h => SAssignField h x e) (i_priv_fields I)
                                     | SCall _ a => map (fun h => SCall h a) (i_priv_funs I)
                                     | _ => [] end;
          g_ins := g_ins no_gen; g_fun := g_fun no_gen; g_top := g_top no_gen;
@@ -484,12 +516,45 @@ Definition gen_of (fc : fault) (I : info) : gen :=
                                     | SVar a t x e => map (fun a' => SVar a' t x e) (other_articles a)
                                     | SConst a x l => map (fun a' => SConst a' x l) (other_articles a)
                                     | SFor a t x f to st b => map (fun a' => SFor a' t x f to st b) (other_articles a)
+                                    | SForEach a t x e b => map (fun a' => SForEach a' t x e b) (other_articles a)
                                     | _ => [] end;
          g_ins := g_ins no_gen;
          g_fun := fun _ _ f => match f_ret f with
                                | Some (a, t) => map (fun a' => with_ret f (Some (a', t))) (other_articles a)
                                | None => [] end;
          g_top := g_top no_gen; g_imp := g_imp no_gen |}
+  | FConstElem =>
+      {| g_expr := g_expr no_gen;
+         g_stmt := fun _ G _ _ s => match s with
+                                    | SAssignIdx _ i e => map (fun kt => SAssignIdx (fst kt) i e) (consts_of G)
+                                    | SAssignField f _ e => map (fun kt => SAssignField f (fst kt) e) (consts_of G)
+                                    | _ => [] end;
+         g_ins := fun _ G _ _ => flat_map (fun kt => match snd kt with
+                                                      | TText => [SAssignIdx (fst kt) (ELit LZahl) (ELit LChar)]
+                                                      | _ => [] end) (consts_of G);
+         g_fun := g_fun no_gen; g_top := g_top no_gen; g_imp := g_imp no_gen |}
+  | FWrongElemValue =>
+      {| g_expr := g_expr no_gen;
+         g_stmt := fun F G _ _ s => match s with
+                                    | SAssignIdx x i e => map (SAssignIdx x i) (pool F G) ++ map (fun w => SAssignIdx x w e) (pool F G)
+                                    | SAssignField f x e => map (SAssignField f x) (pool F G)
+                                    | _ => [] end;
+         g_ins := g_ins no_gen; g_fun := g_fun no_gen; g_top := g_top no_gen; g_imp := g_imp no_gen |}
+  | FWrongIter =>
+      {| g_expr := g_expr no_gen;
+         g_stmt := fun F G _ _ s => match s with
+                                    | SForEach a t x e b =>
+                                        map (fun w => SForEach a t x w b) (pool F G) ++
+                                        [SForEach Die TZahl x e b; SForEach Der TText x e b; SForEach Der TChar x e b; SForEach Der TBool x e b]
+                                    | SRepeat b n => map (SRepeat b) (pool F G)
+                                    | SDoWhile b c => map (SDoWhile b) (pool F G)
+                                    | _ => [] end;
+         g_ins := g_ins no_gen; g_fun := g_fun no_gen; g_top := g_top no_gen; g_imp := g_imp no_gen |}
+  | FWrongListElem =>
+      {| g_expr := fun F G e => match e with
+                                | EList e0 a => map (fun w => EList w a) (pool F G) ++ map (EList e0) (subst_args (pool F G) a)
+                                | _ => [] end;
+         g_stmt := g_stmt no_gen; g_ins := g_ins no_gen; g_fun := g_fun no_gen; g_top := g_top no_gen; g_imp := g_imp no_gen |}
   end.
 
 Definition mutants (fc : fault) (p : prog) : list prog := mutants_gen (gen_of fc (info_of p)) p.
